@@ -13,6 +13,7 @@ import SpVerif.Ops.Tlv
 import SpVerif.Ops.Parser
 import SpVerif.Ops.Uslp
 import SpVerif.Ops.Verificator
+import SpVerif.Ops.Prefix
 import SpVerif.Ops.DirectiveFixed
 import SpVerif.Ops.DirectiveVar
 import SpVerif.Ops.FileData
@@ -40,6 +41,7 @@ def allOps : List (String × Handler) := []
   ++ Ops.Parser.ops
   ++ Ops.Uslp.ops
   ++ Ops.Verificator.ops
+  ++ Ops.Prefix.ops
   ++ Ops.DirectiveFixed.ops
   ++ Ops.DirectiveVar.ops
   ++ Ops.FileData.ops
